@@ -58,8 +58,22 @@ func genC17(tier string, seed uint64, emit func(string)) {
 	for _, p := range wordsUpTo(globAlphabet, kpl) {
 		emit("keyscan " + hx(p) + " " + strings.Join(stored, " "))
 	}
+	// a second complete enumeration over an alphabet with the characters that mean something inside Go's regexp quoting
+	// forms (backslash, the Q and E of \Q...\E, a class bracket): every pattern up to length 4 against every key up to 3
+	alt := []byte("a*?\\EQ[")
+	var altKeys []string
+	for _, k := range wordsUpTo([]byte("a\\EQ["), 3) {
+		altKeys = append(altKeys, hx(k))
+	}
+	altLen := 3
+	if tier == "thorough" {
+		altLen = 4
+	}
+	for _, p := range wordsUpTo(alt, altLen) {
+		emit("glob " + hx(p) + " " + strings.Join(altKeys, " "))
+	}
 	// longer random patterns and keys over a wider ASCII alphabet (every regexp metacharacter)
-	wide := []byte("ab*?.+()|^${}[]\\-xyz09 \t")
+	wide := []byte("ab*?.+()|^${}[]\\-xyzEQdDwWsSbBAzZpPnrtfvx09 \t")
 	n := 3000
 	if tier == "thorough" {
 		n = 100000
